@@ -136,6 +136,15 @@ pub fn check_hms_grid(h: u32, mi: u32, s: u32, us: u32) -> Result<bool, String> 
     if v != r.is_ok() {
         return Err(format!("is_valid({h},{mi},{s},{us}) = {v} but try_from_hms is_ok = {}", r.is_ok()));
     }
+    // Date::and_hms must accept exactly the same tuples (and denote date + time)
+    for n in [cal().first, -1, 0, cal().last] {
+        let a = guarded(|| ad::date(n).and_hms(h, mi, s, us)).map_err(|p| format!("Date({n}).and_hms({h},{mi},{s},{us}): {p}"))?;
+        match (&a, valid) {
+            (Ok(x), true) if x.usecs() as i128 == n as i128 * US_PER_DAY + pools::hms(h as i128, mi as i128, s as i128, us as i128) => {}
+            (Err(_), false) => {}
+            _ => return Err(format!("Date({n}).and_hms({h},{mi},{s},{us}) = {:?}, but the tuple is {}", a.map(|x| x.usecs()), if valid { "valid" } else { "not a time of day: an error is required" })),
+        }
+    }
     match r {
         Ok(t) => {
             if !valid {
